@@ -10,9 +10,9 @@ RULE = ('cases = (generated document, xml mode, position); documents from random
         'valueless, expression and Angular/React attributes, comments, CDATA, PIs, special and non-special script/style), every position 0..len, '
         'three functions each. Non-trivial = the position lies strictly inside at least one element; distinct by (document, position)')
 ASSUMPTIONS = ['generator bookkeeping is self-checked: every recorded range slices to the text it claims',
-               'end tags are written without inner blanks; an unquoted value does not end in "/" right before ">" (that spells "/>")',
-               'an end tag repeats the letter case of its start tag and script / style are written in lower case: the matcher pairs names as written (HTML\'s '
-               'case-insensitive pairing is not claimed by the statement); void elements ARE generated in upper / capitalised form (`<BR>`): the statement names them',
+               'an unquoted value does not end in "/" right before ">" (that spells "/>"); white space before the `>` of an end tag (`</div >`) is D2: separate documents built to hit the recorded finding',
+               'in HTML mode start and end tag may differ in letter case (`<DIV>...</div>`) and script / style are also written in upper / capitalised form; in XML mode an end tag repeats its start tag exactly '
+               'and script / style are lower case; the reported name is the one written in the start tag',
                'balanced_inward boundary convention is left open: first entry = a recorded element touching the position with no recorded descendant strictly containing it; rest = exactly its first-child chain']
 FLOORS = {'quick': {'position': 30000, 'document': 200}, 'thorough': {'position': 2000000, 'document': 12000}}
 REQUIRED_MONITORS = ['oracle:match', 'oracle:attributes', 'oracle:outward', 'oracle:inward']
@@ -52,10 +52,20 @@ def tup(t):
     return (t.name, tuple(t.open), tuple(t.close) if t.close else None)
 
 
-def check_doc(src, recs, xml, ctx, hm, positions=None):
+def blank_end_tags_unseen(src, recs, hm):
+    "D2 evidence for the classifier: recorded end tags with a blank before `>` that the tag scanner does not report at all"
+    seen = set()
+    hm.scan(src, lambda name, typ, s, e: seen.add((s, e)))
+    return [list(r['close']) for r in recs if r['close'] and src[r['close'][1] - 2].isspace() and tuple(r['close']) not in seen]
+
+
+def check_doc(src, recs, xml, ctx, hm, positions=None, domain='d1'):
     opt = {'xml': xml}
     ctx.ev('document')
-    docase = {'src': src, 'xml': xml, 'truth': gen_html.to_json(recs)}
+    docase = {'src': src, 'xml': xml, 'truth': gen_html.to_json(recs), 'domain': domain}
+    if domain == 'd2':
+        ctx.ev('document:d2')
+        docase['blank_end_tags_unseen'] = blank_end_tags_unseen(src, recs, hm)
     by_key = {(r['name'], r['open'], r['close']): r for r in recs}
     for pos in (positions if positions is not None else range(len(src) + 1)):
         ctx.ev('position')
@@ -147,6 +157,15 @@ def run_shard(desc, ctx):
             if len(src) > 1000:
                 continue
             check_doc(src, recs, xml, ctx, hm)
+            if k % 8 == 3:
+                # D2: the same kind of document with white space before the `>` of some end tags (`</div >`: well-formed in XML and HTML alike)
+                gen_html.BLANK_IN_END_TAG['p'] = 0.3
+                try:
+                    src, recs = gen_html.gen_doc(rng, xml=xml, max_depth=3)
+                finally:
+                    gen_html.BLANK_IN_END_TAG['p'] = 0.0
+                if len(src) <= 600 and any(r['close'] and src[r['close'][1] - 2].isspace() for r in recs):
+                    check_doc(src, recs, xml, ctx, hm, domain='d2')
     finally:
         pr.uninstall()
     for k, v in pr.reach().items():
@@ -157,7 +176,15 @@ def replay(case, ctx):
     from emmet import html_matcher as hm
     recs = gen_html.from_json(case['truth'])
     gen_html.self_check(case['src'], recs)
-    check_doc(case['src'], recs, case['xml'], ctx, hm, positions=[case['pos']])
+    check_doc(case['src'], recs, case['xml'], ctx, hm, positions=[case['pos']], domain=case.get('domain', 'd1'))
 
 
-CLASSIFIERS = {}
+def _blank_end_tag(rec):
+    """The tag scanner wants `>` right after the name of an end tag: `</div >` is not reported at all (the repository's own suite asserts
+    get_tags('</a >') == []), so the element it closes - and everything around it - stays open.  Explains only D2 documents (built with such
+    end tags) in which the scanner indeed left at least one of the recorded blank end tags unreported."""
+    c = rec['case']
+    return c.get('domain') == 'd2' and bool(c.get('blank_end_tags_unseen')) and rec['kind'] in ('match-mismatch', 'outward-mismatch', 'inward-mismatch', 'match-unexpected')
+
+
+CLASSIFIERS = {'C09-blank-before-end-of-closing-tag': _blank_end_tag}
